@@ -271,6 +271,12 @@ def construct(tr, n):
             if tr.klass(a0) == ct.elem.klass:
                 return '((%s){1, %s})' % (ct.c, tr.e(a0))
         return None
+    if k in ('ada_string', 'ada_owned_string', 'ada_url_components'):
+        if not argn:
+            return '((%s){0})' % ct.c
+        if len(argn) == 1 and tr.klass(argn[0]) == k:
+            return tr.e(argn[0])
+        return None
     if k == 'tag':
         return '0'
     if k is None and len(argn) == 1:
@@ -508,11 +514,11 @@ def new_expr(tr, n):
     inner = [c for c in n.get('inner', []) if c.get('kind') != 'CXXDefaultArgExpr']
     if n.get('isArray'):
         size = tr.e(inner[0])
-        return '((%s)malloc(sizeof(%s) * (%s)))' % (ct.c, ct.elem.c, size)
+        return '((%s)new_model(sizeof(%s) * (%s)))' % (ct.c, ct.elem.c, size)
     if inner:
         v = tr.e(inner[-1])
         return 'NEW__%s(%s)' % (re.sub(r'\W+', '_', ct.elem.c.replace('struct ', '')), v)
-    return '((%s)malloc(sizeof(%s)))' % (ct.c, ct.elem.c)
+    return '((%s)new_model(sizeof(%s)))' % (ct.c, ct.elem.c)
 
 
 def delete_expr(tr, n):
